@@ -1461,7 +1461,7 @@ func main() {
 	corpus(p, dir, tr)
 
 	rng := hx.NewRng(args.Seed)
-	nWrap, nWrapMed, nRoute, depth := 260, 120, 900, 3
+	nWrap, nWrapMed, nRoute, depth := 600, 300, 1700, 3
 
 	if args.Tier == "thorough" {
 		nWrap, nWrapMed, nRoute, depth = 4000, 2000, 30000, 4
